@@ -723,7 +723,7 @@ def prepare_replay(ctx, quick):
     _W.update(seed=ctx.seed, quick=quick,
               canon=Conc.draw(ctx.rng, FULL_NEED, canonical=True),
               pool=[Conc.draw(ctx.rng, FULL_NEED) for _ in range(256)])
-    return multiprocessing.get_context("fork").Pool(3 if quick else 4)
+    return multiprocessing.get_context("fork").Pool(3 if quick else 6)
 
 
 def _replay_chunk(lines):
@@ -1229,9 +1229,13 @@ def _run_parallel(ctx, quick, cfg, mc_dir, workers):
         # 2. the invariants can fail
         f_neg = pool.submit(spec_negative_controls, ctx)
         # 3. code -> spec: recorded executions on deeper structures, validated by TLC
+        #    (recorded in a background thread as well: the main thread only merges replay results)
         unspecified_zone(ctx)
-        traces, metas = make_traces(ctx, *((1500, 400) if quick else (20000, 4000)))
-        f_val = pool.submit(validate, ctx, traces, True, 2 if quick else 4)
+
+        def record_and_validate():
+            traces, metas = make_traces(ctx, *((1500, 400) if quick else (12000, 3000)))
+            return (traces, metas) + tuple(validate(ctx, traces, True, 2 if quick else 4))
+        f_val = pool.submit(record_and_validate)
         # 4. spec -> code: every CASE line, replayed while TLC is still enumerating
         ncase = replay_cases(ctx, follow_lines(mc_dir, lambda: not f_mc.done()), quick, workers)
         r = f_mc.result()
@@ -1242,7 +1246,7 @@ def _run_parallel(ctx, quick, cfg, mc_dir, workers):
             raise core.MachineryError("TLC found %d states but %d CASE lines were read" % (r.distinct, ncase))
         ctx.traces += ncase
         ctx.extra["spec_negative_controls"] = f_neg.result()
-        rejected, info, fmt_drift = f_val.result()
+        traces, metas, rejected, info, fmt_drift = f_val.result()
     ctx.tlc_runs.append({"module": "PkgRelation", "generated": r.generated, "distinct": r.distinct, "depth": r.depth,
                          "wall_s": round(r.wall, 2), "violated": r.violated})
     ctx.states += r.distinct
